@@ -63,6 +63,19 @@ def check_all(dm):
             want = scan(dm, col, v)
             if got != want or any(not (0 <= p < n) for p in got):
                 bad.append(('equals-the-scan-of-the-current-rows;-positions-valid', f'query_index_column_value_indices({col!r}, {v!r}) = {got}, scan = {want}, rows = {n}'))
+    # the row-returning query: the rows at the POSITIONS of the scan (labels differ from positions after remove_rows / slices)
+    for col, v in (('name', 'a'), ('stmt_id', 1), ('stmt_id', 2)):
+        if col not in dm._data.columns:
+            continue
+        want_pos = scan(dm, col, v)
+        try:
+            got = dm.query_index_column_value(col, v)
+            got_rows = [[str(x) for x in r_] for r_ in got._data.values] if isinstance(got, DataModel) else []
+        except Exception as e:      # noqa
+            got_rows = f'exception {e!r}'
+        want_rows = [[str(x) for x in dm._data.iloc[p_].values] for p_ in want_pos]
+        if got_rows != want_rows:
+            bad.append(('the-rows-at-the-POSITIONS-the-indexed-query-returns-(an-empty-list-when-none)', f'query_index_column_value({col!r}, {v!r}) = {got_rows}, rows at the scanned positions {want_pos} = {want_rows}'))
     for i in (-1, 0, n - 1, n):
         r = dm.access(i)
         if 0 <= i < n:
@@ -115,7 +128,8 @@ def search(target, models):
             # checking only at the end matters: intermediate checks refresh the caches and can hide a stale one
             r = run(seq, check_every_step=False)
             if r:
-                wit.append(dict(function='DataModel.set_refresh_flag', input=list(seq), observed=r[1], clauses=[r[0], 'all-caches-invalidated', 'invariant']))
+                fnm = 'DataModel.query_index_column_value' if 'POSITIONS' in r[0] else 'DataModel.set_refresh_flag'
+                wit.append(dict(function=fnm, input=list(seq), observed=r[1], clauses=[r[0], 'all-caches-invalidated', 'invariant']))
                 if len(wit) >= 3:
                     return dict(witnesses=wit, searched=f'{cases} operation sequences', how='real DataModel vs scan of its current frame')
     return dict(witnesses=wit, searched=f'{cases} operation sequences of length <= 4 over 12 operations on a 5-row table with duplicate and missing values',
